@@ -145,6 +145,10 @@ def worker_main(args) -> int:
             mod.warmup()
         except Exception:  # pylint: disable=broad-except
             pass
+    import gc
+
+    gc.collect()
+    gc.freeze()  # the warm heap (HA, pyscript, croniter ...) is never collected again: cheap per-run gc.collect()
     out = sys.stdout
     for i in indices:
         seed = derive(args.base_seed, args.prop, i)
@@ -159,6 +163,8 @@ def worker_main(args) -> int:
             continue
         scn.update({"format": 1, "property": args.prop, "seed": seed, "hashseed": hashseed})
         res = run_one(mod, scn)
+        if res.get("scn_patch"):
+            scn.update(res["scn_patch"])  # e.g. the cancellation point an enumeration found failing
         line = {
             "i": i,
             "seed": seed,
@@ -395,6 +401,7 @@ def _shrink_one(prop: str, key: str, info: dict, conf: dict) -> dict:
     seed = info["seed"]
     scn["expect"] = {"class": viol["class"], "sig": viol.get("sig", {})}
     tag = hashlib.sha256(key.encode()).hexdigest()[:6]
+    os.makedirs(os.path.join(VERIF, "replays"), exist_ok=True)
     raw_path = os.path.join(VERIF, "replays", f"{prop}-{seed}-{tag}.raw.json")
     out_path = os.path.join(VERIF, "replays", f"{prop}-{seed}-{tag}.json")
     with open(raw_path, "w", encoding="utf-8") as fdesc:
